@@ -235,7 +235,7 @@ def _check_user_space(repo, rep):
                     if o.undecided:
                         raise AnalysisError(f"{F}: evaluator undecided: {o.undecided}")
                     site = f"{F} [{cls}, {units}, inplace={inplace}]"
-                    if any(v for c, v in o.decisions if "== 0" in repr(c)):
+                    if any(v for c, v in o.decisions if "bw == 0" in repr(c) or "bh == 0" in repr(c)):
                         continue  # empty bounding box branch of rect_to_rect
                     if o.raised:
                         rep.fail("R-POLY.user-space", F, site, f"raises {o.raised}", st, fnode)
